@@ -80,6 +80,44 @@ def viewObsOrPanic (d : List UInt8) (lookups : List Nat) : List String :=
 
 /-! ### Family `tlvview` -/
 
+/-- FNV-1a, 64 bit, over the (ASCII) characters of a string; same as `fnv64` in the harness. -/
+def fnvStr (s : String) : UInt64 :=
+  s.foldl (fun h c => (h ^^^ c.toNat.toUInt64) * 0x100000001b3) 0xcbf29ce484222325
+
+def hex64 (x : UInt64) : String :=
+  String.ofList ((List.range 16).map (fun i => hexChar ((x >>> (UInt64.ofNat (60 - 4 * i))).toNat % 16)))
+
+def dedupAdj : List Nat → List Nat
+  | a :: b :: rest => if a = b then dedupAdj (b :: rest) else a :: dedupAdj (b :: rest)
+  | l => l
+
+/-- The terse observation of `viewt` (messages with hundreds of pairs): the `new` line, count +
+digest of the `tags` and `iter` texts of `viewObs`, `get`/`get_value` at a handful of indices,
+`find` of the lookups.  `none` = some call panics. -/
+def viewTerse (d : List UInt8) (lookups : List Nat) : Option (List String) := do
+  match ← View.new d with
+  | .error e => pure ["new err " ++ errStr e]
+  | .ok v =>
+    let n ← v.len
+    let empty ← v.isEmpty
+    let tags ← v.tags
+    let it ← v.iter
+    let idxs := dedupAdj [0, n / 2, n - 1, n, n + 1, 4294967296, 18446744073709551615]
+    let gets ← idxs.mapM (fun i => do
+      let g ← v.get i
+      let gv ← v.getValue i
+      pure (toString i ++ "=" ++ optPair g ++ "/" ++ optHex gv))
+    let finds ← lookups.mapM (fun w => do
+      let ft ← v.findTag w
+      let f ← v.find w
+      pure (toString w ++ "=" ++ (match ft with | none => "none" | some i => toString i) ++ "/" ++ optHex f))
+    pure [
+      "new ok n=" ++ toString n ++ " empty=" ++ b01 empty,
+      "tags #" ++ toString tags.length ++ ":" ++ hex64 (fnvStr (natList tags)),
+      "iter #" ++ toString it.length ++ ":" ++ hex64 (fnvStr (if it.isEmpty then "-" else ";".intercalate (it.map pairStr))),
+      "get " ++ " ".intercalate gets,
+      "find " ++ (if finds.isEmpty then "-" else " ".intercalate finds)]
+
 /-- `viewit <iter|tags> <hex> <script>`: an iterator-protocol script on the list `iter()` yields
 (forward only) or on the tags (a slice iterator: double-ended, exact size). -/
 def viewItObs (src : String) (d : List UInt8) (steps : List Woodpile.IterScript.Step) : List String :=
@@ -106,6 +144,11 @@ def viewStep (s : Unit) : List String → Unit × List String
     match parseHex hex, parseNatList lk with
     | some d, some lookups =>
       if lookups.all (· < 4294967296) then (s, viewObsOrPanic d lookups) else (s, ["bad-op"])
+    | _, _ => (s, ["bad-op"])
+  | ["viewt", hex, lk] =>
+    match parseHex hex, parseNatList lk with
+    | some d, some lookups =>
+      if lookups.all (· < 4294967296) then (s, (viewTerse d lookups).getD ["panic"]) else (s, ["bad-op"])
     | _, _ => (s, ["bad-op"])
   | _ => (s, ["bad-op"])
 
